@@ -95,6 +95,27 @@ def correspond(chk, configs):
                 broken_corr = broken_corr or {'line': line, 'impl': i, 'model': m, 'config': [cxx, std]}
     if broken_corr and not chk.violations:
         chk.report_unproved('impl≠model (implementation agrees with the specification)', broken_corr)
+    # the same requests through the choice accessors the real sbeppc generates (index passed as a literal by the
+    # generated code; declaration order shuffled; equality and raw access cross-checked inside the driver)
+    from .. import c15gen
+    glines, gouts = c15gen.run(chk, configs)
+    if glines:
+        rc, gm = chk.run_lines(model, glines)
+        for (cxx, std), io in gouts.items():
+            if len(io) != len(glines):
+                chk.report_unproved('generated-driver-run', '%s %s answers=%d/%d' % (cxx, std, len(io), len(glines)))
+                continue
+            for line, m, i in zip(glines, gm, io):
+                evals += 1
+                req = kv(line)
+                nontrivial.add(('gen', req['T'], req['op'], req['v'], req['n'], req.get('b')))
+                if kv(i).get('impl') != kv(m).get('spec'):
+                    case = dict(req)
+                    case.update({'width': WIDTH[req['T']], 'n': int(req['n']), 'cxx': cxx, 'std': std, 'via': 'generated'})
+                    chk.report_failure({'kind': 'impl≠spec', 'harness': 'generated choice accessors (vlib/c15gen.py)',
+                                        'config': {'cxx': cxx, 'std': std}, 'lines': [line],
+                                        'observed': {'impl': i, 'model_and_spec': m}, 'case': case})
+        chk.cov['generated_accessor_requests'] = len(glines) * max(1, len(gouts))
     chk.cov['evaluations'] = evals
     chk.cov['distinct_nontrivial'] = len(nontrivial)
     chk.cov['traces_validated_against_impl'] = evals
